@@ -5,6 +5,7 @@ import (
 	"os"
 	"path/filepath"
 	"runtime"
+	"sort"
 	"strings"
 )
 
@@ -187,8 +188,21 @@ func pathPrefixLen(file, dir string) int {
 func checkedfuncname(name string) string {
 	// name := s.Function
 	if IsAnyBitsSet(Lcallerpackagename) {
-		for k, v := range codeHostingProvidersMap {
-			name = strings.ReplaceAll(name, k, v) // replace github.com with "GH", ...
+		// longest provider first (ties in byte order): registered providers
+		// may overlap ("github.com" and "github.com/acme"), and the name
+		// must not depend on the iteration order of the table
+		keys := make([]string, 0, len(codeHostingProvidersMap))
+		for k := range codeHostingProvidersMap {
+			keys = append(keys, k)
+		}
+		sort.Slice(keys, func(i, j int) bool {
+			if len(keys[i]) != len(keys[j]) {
+				return len(keys[i]) > len(keys[j])
+			}
+			return keys[i] < keys[j]
+		})
+		for _, k := range keys {
+			name = strings.ReplaceAll(name, k, codeHostingProvidersMap[k]) // replace github.com with "GH", ...
 		}
 	} else {
 		if pos := strings.LastIndex(name, "/"); pos >= 0 {
